@@ -14,6 +14,7 @@ mod deps;
 mod entry;
 mod purity;
 mod opt;
+mod passes;
 mod reader;
 mod repl;
 mod rich;
@@ -37,6 +38,7 @@ fn main() {
         "base" => base::run(&rest),
         "compile" => compile::run(&rest),
         "coresyms" => coresyms::run(&rest),
+        "passes" => passes::run(&rest),
         "conv" => conv::run(&rest),
         "entry" => entry::run(&rest),
         "cldbmain" => entry::cldb_main(&rest),
